@@ -2800,13 +2800,23 @@ namespace Clipper2Lib {
     {
       e.join_with = JoinWith::NoJoin;
       e.next_in_ael->join_with = JoinWith::NoJoin;
+#ifdef USINGZ
+      OutPt* op = AddLocalMinPoly(e, *e.next_in_ael, pt, true);
+      if (zCallback_) SetZ(e, *e.next_in_ael, op->pt);
+#else
       AddLocalMinPoly(e, *e.next_in_ael, pt, true);
+#endif
     }
     else
     {
       e.join_with = JoinWith::NoJoin;
       e.prev_in_ael->join_with = JoinWith::NoJoin;
+#ifdef USINGZ
+      OutPt* op = AddLocalMinPoly(*e.prev_in_ael, e, pt, true);
+      if (zCallback_) SetZ(*e.prev_in_ael, e, op->pt);
+#else
       AddLocalMinPoly(*e.prev_in_ael, e, pt, true);
+#endif
     }
   }
 
@@ -2829,7 +2839,14 @@ namespace Clipper2Lib {
     if (!IsCollinear(e.top, pt, prev->top)) return;
 
     if (e.outrec->idx == prev->outrec->idx)
+    {
+#ifdef USINGZ
+      OutPt* op = AddLocalMaxPoly(*prev, e, pt);
+      if (zCallback_ && op) SetZ(*prev, e, op->pt);
+#else
       AddLocalMaxPoly(*prev, e, pt);
+#endif
+    }
     else if (e.outrec->idx < prev->outrec->idx)
       JoinOutrecPaths(e, *prev);
     else
@@ -2857,7 +2874,14 @@ namespace Clipper2Lib {
     if (!IsCollinear(e.top, pt, next->top)) return;
 
     if (e.outrec->idx == next->outrec->idx)
+    {
+#ifdef USINGZ
+      OutPt* op = AddLocalMaxPoly(e, *next, pt);
+      if (zCallback_ && op) SetZ(e, *next, op->pt);
+#else
       AddLocalMaxPoly(e, *next, pt);
+#endif
+    }
     else if (e.outrec->idx < next->outrec->idx)
       JoinOutrecPaths(e, *next);
     else
